@@ -252,7 +252,7 @@ def pair(draw, nonempty):
 
     ea, eb = elems(a), elems(b)
     # explicit zero payloads: stored but not presented
-    if draw(st.integers(0, 5)) == 0:
+    if draw(st.sampled_from([False] * 5 + [True])):
         side = draw(st.sampled_from([ea, eb]))
         taken = {c for c, _ in side}
         free = [c for c in range(0, 13) if c not in taken]
@@ -290,15 +290,23 @@ def intersect_cases(draw):
 
 
 @st.composite
-def swap_tree(draw, levels, top_max):
-    cs = draw(coord_list(0, 7, 0 if levels >= 2 and top_max == 6 else 1, top_max))
+def swap_tree(draw, levels, sizes):
+    """canonical tree: every sub-fiber non-empty, every leaf non-zero;
+    sizes[0] = admissible element counts of this level"""
+    n = draw(st.sampled_from(sizes[0]))
+    cs = draw(coord_list(0, 7, n, n))
     out = []
     for c in cs:
         if levels == 1:
             out.append([c, draw(st.sampled_from(VALS))])
         else:
-            out.append([c, draw(swap_tree(levels - 1, 5 if levels == 2 else 4))])
+            out.append([c, draw(swap_tree(levels - 1, sizes[1:]))])
     return out
+
+
+TOP = [0, 1, 2, 2, 3, 3, 4, 5, 6]
+MID = [1, 2, 2, 3, 3, 4, 5]
+LEAF = [1, 2, 2, 3, 3, 4, 5]
 
 
 def count_leaves(tree, levels):
@@ -311,11 +319,16 @@ def count_leaves(tree, levels):
 def swap_cases(draw):
     levels = draw(st.sampled_from([2, 2, 2, 3]))
     depth = 0 if levels == 2 else draw(st.sampled_from([0, 1, 1]))
-    tree = draw(swap_tree(levels, 6 if levels == 2 else 3))
-    radix = draw(st.sampled_from([2, 2, 2, 3, 3, 4, 5, 8, 100, "inf", "inf"]))
-    if draw(st.integers(0, 24)) == 0:
+    if levels == 2:
+        tree = draw(swap_tree(2, [TOP, LEAF]))
+    elif depth == 0:
+        tree = draw(swap_tree(3, [TOP, [1, 2, 3], [1, 2]]))
+    else:
+        tree = draw(swap_tree(3, [[0, 1, 2, 2, 3], MID, [1, 2, 3]]))
+    radix = draw(st.sampled_from([2, 2, 2, 3, 3, 4, 5, 8, 100, "inf", "inf", "inf"]))
+    if draw(st.sampled_from([False] * 24 + [True])):
         radix = "N"
-    lat = draw(st.sampled_from([1, 2, 3, 4, 5, "N", "N", "N"]))
+    lat = draw(st.sampled_from([1, 2, 3, 4, 5, "N", "N", "N", "N", "N"]))
     nl = count_leaves(tree, levels)
     vals2 = draw(st.lists(st.sampled_from(VALS + [11, -4, 0.5]), min_size=nl, max_size=nl))
     return {"levels": levels, "depth": depth, "tree": tree, "radix": radix, "latency": lat,
@@ -497,6 +510,7 @@ def check_intersect(case, rec):
 
     p14_open = findings.is_open(ID, FID_P14)
     saw_p14 = False
+    exact_multi = False
     for bname, sizes in batchings:
         got = session(case, sizes)
         bounds = []
@@ -505,6 +519,7 @@ def check_intersect(case, rec):
             bounds.append((lo, lo + z))
             lo += z
         shaped = any(p14_shape(orc, lo, hi) for lo, hi in bounds)
+        exact_multi = exact_multi or (len(sizes) < n and not shaped)
         for name, _, arity in MODELS:
             g = got[name]
             if g == want[name]:
@@ -512,7 +527,7 @@ def check_intersect(case, rec):
             desc = (f"{name} model fed {bname} {sizes}: got {g}, independent merge gives {want[name]} "
                     f"(fiber by fiber: {[o[name] for o in orc]}); presented lists {lists}, "
                     f"outer {case['outer']}, mode {case['mode']}")
-            if arity == 2 and shaped and len(sizes) < n:
+            if arity == 2 and shaped:
                 # P14: a batch spanning fibers in which a fiber ends with a traced
                 # but uncompared head and the other operand has later rows
                 saw_p14 = True
@@ -547,9 +562,7 @@ def check_intersect(case, rec):
     rec.cls("explicit-zero", any(len(present(e)) != len(e) for p in pairs for e in p))
     rec.cls("p14-shape-one-shot", p14_shape(orc, 0, n))
     rec.cls("p14-deviation", saw_p14)
-    rec.cls("multi-fiber-batch-exact", any(len(s) < n and not any(
-        p14_shape(orc, lo, lo + z) for lo, z in zip([sum(s[:k]) for k in range(len(s))], s))
-        for _, s in batchings))
+    rec.cls("multi-fiber-batch-exact", exact_multi)
     run2 = any(o["longest_run"] >= 2 for o in orc)
     rec.cls("run>=2", run2)
     rec.nontrivial(n >= 2 and any(a and b for a, b in lists) and run2)
@@ -659,8 +672,8 @@ def _pinned_radix_n():
 
 PINNED = {FID_P14: _pinned_p14, FID_RADIX_N: _pinned_radix_n}
 
-PARTS = [Part("intersect", intersect_cases(), check_intersect, n_quick=1500, n_thorough=6000),
-         Part("swaps", swap_cases(), check_swaps, n_quick=1200, n_thorough=5000)]
+PARTS = [Part("intersect", intersect_cases(), check_intersect, n_quick=3000, n_thorough=8000),
+         Part("swaps", swap_cases(), check_swaps, n_quick=2500, n_thorough=8000)]
 
 
 def coverage_warnings(rec):
